@@ -188,6 +188,7 @@ type c03Fault struct {
 
 type c03Args struct {
 	Connect bool   // the control service's connect bridge (bubble) instead of a raw stream
+	Mode    string // connect: "" the service echoes after end-of-stream; "reply-first": it answers and closes its sending side before it reads anything, and reads late
 	Topo    string // chain2 | chain3 | chain4 | diamond
 	Size    int
 	Write   int // write size (0: one write)
@@ -199,6 +200,9 @@ type c03Args struct {
 
 func (a c03Args) String() string {
 	if a.Connect {
+		if a.Mode != "" {
+			return fmt.Sprintf("connect bridging size=%d service=%s", a.Size, a.Mode)
+		}
 		return fmt.Sprintf("connect bridging size=%d", a.Size)
 	}
 	if a.StallMs > 0 {
@@ -241,7 +245,7 @@ func execC03(w *W, raw json.RawMessage) CaseOut {
 		res := make(chan CaseOut, 1)
 		go func() {
 			defer func() { recover() }()
-			runC03Connect(w.T, a.Size, res)
+			runC03Connect(w.T, a.Size, a.Mode, res)
 		}()
 		select {
 		case o := <-res:
@@ -452,8 +456,9 @@ func coordC03(c *Coord) {
 	p := c.newPool()
 	defer p.close()
 	var jobs []c03Args
-	for _, sz := range []int{0, 1, 1200, 20000} {
+	for _, sz := range []int{0, 1, 1200, 20000, 200000} {
 		jobs = append(jobs, c03Args{Connect: true, Size: sz})
+		jobs = append(jobs, c03Args{Connect: true, Size: sz, Mode: "reply-first"})
 	}
 	sizes := []int{0, 1, 1200, 20000}
 	if c.Thorough() {
@@ -554,7 +559,7 @@ func runC03(w *W) {
 
 // ---- (c) the control service's connect command: real bridge between a control session and a mesh stream ----
 
-func runC03Connect(t *testing.T, size int, early chan CaseOut) {
+func runC03Connect(t *testing.T, size int, mode string, early chan CaseOut) {
 	var out CaseOut
 	out.Nontrivial = true
 	defer func() { early <- out }()
@@ -575,6 +580,18 @@ func runC03Connect(t *testing.T, size int, early chan CaseOut) {
 			c, err := li.Accept()
 			if err != nil {
 				srvGot <- nil
+				return
+			}
+			if mode == "reply-first" {
+				// the service is done talking before it has read anything; it reads late
+				c.Write([]byte("bye"))
+				c.Close() // half-close: end of ITS stream only
+				time.Sleep(3 * time.Second)
+				b, rerr := io.ReadAll(c)
+				if rerr != nil {
+					b = append(b, []byte(fmt.Sprintf("<read error: %v>", rerr))...)
+				}
+				srvGot <- b
 				return
 			}
 			b, _ := io.ReadAll(c)
@@ -606,7 +623,11 @@ func runC03Connect(t *testing.T, size int, early chan CaseOut) {
 		if !bytes.Equal(got, data) {
 			out.violate("stream:bridge-lost-bytes:session-to-stream", "connect bridge: sent %d bytes, the service read %d", len(data), len(got))
 		}
-		if !bytes.Equal(back, data) {
+		if mode == "reply-first" {
+			if string(back) != "bye" {
+				out.violate("stream:bridge-lost-bytes:stream-to-session", "connect bridge (service answers first): the session read %q (%v), the service wrote \"bye\"", trunc(string(back), 40), rerr)
+			}
+		} else if !bytes.Equal(back, data) {
 			out.violate("stream:bridge-lost-bytes:stream-to-session", "connect bridge: the service echoed %d bytes, the session read %d (%v)", len(data), len(back), rerr)
 		}
 		out.Outcome = "connect"
@@ -621,7 +642,7 @@ func init() {
 		ID:        "C03",
 		Level:     "fault_enumeration",
 		Technique: "enumeration of fault positions (drop / duplicate / delay of the i-th datagram of every link direction, link cut after t datagrams with a second path) on real QUIC streams between real nodes over harness links in real time, one process per execution; deviation-bounded DFS over environment answers (short reads, errors, short writes) of the real BridgeConns; the connect command's bridge in a synctest bubble",
-		Rule: "loss-free: sizes {0,1,1200,20000 (thorough 200000)} x write sizes {one write, 7, 1200} x {1,2,3 hops, diamond}, both directions at once with half-close by both sides; single faults {drop, duplicate, +30 ms delay} at every data-packet index < 24 (thorough 60) of every link direction on 1- and 2-hop paths (2 hops quick: even indices); thorough: pairs of faults on a stride-4 grid; cutting the active first-hop link of the diamond after t = 1,3,..,29 (thorough 79) data packets, and for t = 1,5,9,.. additionally with the link stalled (Send blocks) for 300 ms before it is cut, so that datagrams are caught in the middle of being forwarded; bridge: payloads of 0-3 chunks, every answer sequence with <=2 deviations. " +
+		Rule: "loss-free: sizes {0,1,1200,20000 (thorough 200000)} x write sizes {one write, 7, 1200} x {1,2,3 hops, diamond}, both directions at once with half-close by both sides; single faults {drop, duplicate, +30 ms delay} at every data-packet index < 24 (thorough 60) of every link direction on 1- and 2-hop paths (2 hops quick: even indices); thorough: pairs of faults on a stride-4 grid; cutting the active first-hop link of the diamond after t = 1,3,..,29 (thorough 79) data packets, and for t = 1,5,9,.. additionally with the link stalled (Send blocks) for 300 ms before it is cut, so that datagrams are caught in the middle of being forwarded; bridge: payloads of 0-3 chunks, every answer sequence with <=2 deviations; connect command: the service echoes after end-of-stream, or answers and half-closes before it reads anything and reads 3 s later. " +
 			"Each execution is distinct; non-trivial = a stream was transferred. Oracle: bytes read = bytes written in both directions, end-of-stream after the last byte, completion within 60 s; after a failing side the bridge delivered a prefix.",
 		Assumptions: []string{"QUIC packetisation is not replay-stable: a fault index names the i-th data packet of this run (faults_applied counts the ones that hit)", "real time with a 60 s completion limit (observed transfers: tens of milliseconds)", "the TCP/Unix proxy services are represented by their BridgeConns core"},
 		Run:         runC03,
